@@ -27,7 +27,8 @@
 (***************************************************************************)
 EXTENDS Naturals, Integers, Sequences, FiniteSets, TLC
 
-CONSTANTS Ver          \* 3 | 5
+CONSTANTS Ver,         \* 3 | 5
+          Role         \* "server" | "client"
 
 E(e, k, s, id, q, r, n) == [e |-> e, k |-> k, s |-> s, id |-> id, q |-> q, r |-> r, n |-> n, x |-> ""]
 
@@ -48,12 +49,14 @@ Emit(st, evs) == [st EXCEPT !.ev = @ \o evs]
 Poll(k, s) == E("send_poll", k, s, 0, 0, 0, 0)
 Done(k, s, id) == E("send_done", k, s, IF Ver = 5 \/ k = "PacketIdInUse" THEN id ELSE 0, 0, 0, 0)
 OutPub(id, q, n) == E("out", "PUBLISH", 0, id, q, 0, n)
+OutPkt(k, id) == E("out", k, 0, id, 0, 0, 0)
+Ctl(k) == E("ctl", k, 0, 0, 0, 0, 0)
 
 \* an awaited send (QoS 1 / QoS 2 / streamed QoS 1) issued and polled once.
 \*   cid   caller-chosen id (0 = automatic)      plen  declared payload size
 \*   fails "none" | "encode" (topic too long) | "big" (over Maximum Packet Size, MQTT 5 only)
 \*   strm  the payload follows in chunks
-Awaited(st, q, cid, plen, fails, strm) ==
+AwaitedK(st, q, cid, plen, fails, strm, sub) ==
   LET s == st.nxt
       s0 == [st EXCEPT !.nxt = s + 1, !.cur = IF strm THEN s ELSE @, !.curOk = IF strm THEN FALSE ELSE @,
                         !.curH = IF strm THEN TRUE ELSE @, !.curDone = IF strm THEN FALSE ELSE @]
@@ -68,8 +71,12 @@ Awaited(st, q, cid, plen, fails, strm) ==
                     THEN \* header written, payload owed: the frame is complete (and acknowledged) later
                          Emit([s2 EXCEPT !.sr = plen, !.srId = id, !.srQ = q, !.srLen = plen, !.curOk = TRUE],
                               << Poll("pending", s) >>)
+                    ELSE IF sub
+                    THEN Emit([s2 EXCEPT !.owedP = Append(@, [id |-> id, a |-> "SUBACK"])],
+                              << Poll("pending", s), OutPkt("SUBSCRIBE", id) >>)
                     ELSE Emit([s2 EXCEPT !.owedP = Append(@, [id |-> id, a |-> IF q = 1 THEN "PUBACK" ELSE "PUBREC"])],
                               << Poll("pending", s), OutPub(id, q, plen) >>)
+Awaited(st, q, cid, plen, fails, strm) == AwaitedK(st, q, cid, plen, fails, strm, FALSE)
 
 \* QoS 0: answered inside the call (no future to poll).  withId: the application set a packet id (encoder refuses)
 AtMostOnce(st, plen, withId, strm) ==
@@ -96,7 +103,7 @@ Chunk(st, n) ==
           ELSE IF st.sr = 0 THEN fin("Encode")
           ELSE IF n > st.sr
             THEN \* more than the publish declared: the connection is aborted
-                 Emit([s0 EXCEPT !.dead = TRUE, !.sr = 0], << Poll("ready", t), Done("Encode", t, 0) >>)
+                 Emit([s0 EXCEPT !.dead = TRUE, !.sr = 0], << Poll("ready", t), Done("Encode", t, 0), Ctl("stop_peer") >>)
           ELSE IF n = st.sr
             THEN \* the frame is complete now
                  Emit([s0 EXCEPT !.sr = 0, !.curDone = TRUE,
@@ -108,14 +115,30 @@ Chunk(st, n) ==
 StreamDrop(st) ==
   IF st.cur = 0 THEN st
   ELSE IF ~st.curH THEN [st EXCEPT !.cur = 0]
-  ELSE [st EXCEPT !.cur = 0, !.dead = IF st.curOk /\ ~st.curDone /\ st.sr > 0 THEN TRUE ELSE @,
-                  !.sr = IF st.curOk /\ ~st.curDone THEN 0 ELSE @]
+  ELSE IF st.curOk /\ ~st.curDone /\ st.sr > 0
+    THEN Emit([st EXCEPT !.cur = 0, !.dead = TRUE, !.sr = 0], << Ctl("stop_peer") >>)   \* force_close: the dispatcher sees the io gone
+  ELSE [st EXCEPT !.cur = 0]
 
 \* the orderly peer acknowledges the oldest complete packet it has received (nothing is polled)
 PeerAck(st) ==
   IF st.owedP = << >> \/ st.dead THEN st
   ELSE LET h == Head(st.owedP) IN
-       [st EXCEPT !.owedP = Tail(@), !.inuse = IF h.a = "PUBACK" THEN @ \ {h.id} ELSE @]
+       [st EXCEPT !.owedP = Tail(@), !.inuse = IF h.a \in {"PUBACK", "SUBACK"} THEN @ \ {h.id} ELSE @]
+
+\* a packet the DISPATCHER writes on behalf of a handler (PUBACK for an inbound QoS 1 PUBLISH, PINGRESP).  It does not
+\* pass the sink's streaming check; the codec refuses it while a payload is owed (ExpectPayload) and the connection is
+\* stopped with a protocol error - aborted, not continued with a foreign packet inside the payload
+Response(st, k, id) ==
+  IF st.dead THEN st
+  ELSE IF st.sr > 0 THEN Emit([st EXCEPT !.dead = TRUE, !.sr = 0], << Ctl("stop_proto") >>)
+  ELSE Emit(st, << OutPkt(k, id) >>)
+
+\* MqttSink::close(): orderly close by the application; an MQTT 5 endpoint and an MQTT 3.1.1 client say DISCONNECT
+\* first (a 3.1.1 server has no DISCONNECT to send) - unless a payload is owed
+Close(st) ==
+  IF st.dead THEN st
+  ELSE Emit([st EXCEPT !.dead = TRUE, !.sr = 0],
+            << Ctl("stop_peer") >> \o (IF (Ver = 5 \/ Role = "client") /\ st.sr = 0 THEN << OutPkt("DISCONNECT", 0) >> ELSE << >>))
 
 \* one token of the command alphabet
 Do(st, tok) ==
@@ -134,6 +157,10 @@ Do(st, tok) ==
     [] tok = "c7"     -> Chunk(st, 7)
     [] tok = "sd"     -> StreamDrop(st)
     [] tok = "ack"    -> PeerAck(st)
+    [] tok = "in1"    -> Response(st, "PUBACK", 21)
+    [] tok = "close"  -> Close(st)
+    [] tok = "ctl"    -> IF Role = "server" THEN Response(st, "PINGRESP", 0)       \* inbound PINGREQ
+                         ELSE AwaitedK(st, 1, 0, 0, "none", FALSE, TRUE)           \* the client subscribes
     [] OTHER -> st
 
 Evs(st) == st.ev
